@@ -10,17 +10,19 @@ NOTE_COMMON = ("Trusted: Coq 8.16.1 kernel + vm_compute; no axioms declared (Pri
                "extraction via ExtrOcamlBasic only; OCaml driver; Go harness dumpers; tools/*.py. The Go code is modelled by hand "
                "(coq/theories/Model), not verified; the model is tied to /repo's working tree on every run by differential execution. ")
 
-CLAIMS = {
-    "C16": dict(
-        text="Coq theorems about a line-by-line Gallina model of analysis/defers (stackCompare, stackSetUnion, dataflowTransfer, the "
-             "change-flag fixpoint loop) quantify over all CFGs, block orders and fuels; the extracted model and an independent executable "
-             "spec (defer sequences of CFG paths) are compared with the real AnalyzeFunction on every function of the corpus programs incl. "
-             "the loaded standard library (~25k functions) and on generated goto/for/switch CFG programs, which are also executed natively "
-             "for all valuations of their opaque branch conditions.",
-        note=NOTE_COMMON + "C16: instructions abstracted to Defer/RunDefers/other; CFG and dominator preorder taken from x/tools SSA (trusted).",
-        technique="Coq proof over Gallina model + extracted-model differential (T-dump) + native defer-order ground truth",
-        design="4 C16, 9"),
-}
+def load_claims():
+    """one JSON file per claimed property: tools/claims/Cxx.json with keys text, note, technique, design [, category]"""
+    out = {}
+    d = os.path.join(V, "tools", "claims")
+    for f in sorted(os.listdir(d)):
+        if f.endswith(".json"):
+            c = json.load(open(os.path.join(d, f)))
+            c["note"] = NOTE_COMMON + c.get("note", "")
+            out[f[:-5]] = c
+    return out
+
+
+CLAIMS = load_claims()
 
 NOT_YET = "check under construction in this round (model/tie not committed yet); not claimed until its quick check runs clean"
 
